@@ -10,8 +10,11 @@ package cache
 
 import (
 	"context"
+	"encoding/json"
 	"fmt"
 	"math/rand"
+	"os"
+	"path/filepath"
 	"strings"
 	"testing"
 	"time"
@@ -27,11 +30,37 @@ func vC04KeyT(name string, qtype uint16) uint64 {
 	return CacheKey{Question: dns.Question{Name: name, Qtype: qtype, Qclass: dns.ClassINET}}.Hash()
 }
 
-func vC04PieceCoq(k *vC04Clock, e *CacheEntry, fresh uint32) string {
+// vC04PieceCoq: a cache hit is the snapshot entry; a fresh downstream answer is its
+// upstream TTL and the lease the scripted downstream folded with it (sc may be nil).
+func vC04PieceCoq(k *vC04Clock, e *CacheEntry, fresh uint32, sc *vC04Script) string {
 	if e == nil {
-		return fmt.Sprintf("(PFresh %d)", fresh)
+		lease := "None"
+		if sc != nil && sc.hasCut {
+			lease = "(Some " + vC04Z(sc.cut) + ")"
+		}
+		return fmt.Sprintf("(PFresh %d %s)", fresh, lease)
 	}
 	return fmt.Sprintf("(PHit (mk_entry 0 %s %d %s false))", vC04Z(k.virt(e.stored)), int64(e.ttl), vC04Cut(k, e.cutUntil))
+}
+
+// vC04D64Scn is one fixed scenario of corpus/C04/dns64.jsonl (replayed before the generated
+// histories): what the downstream is scripted with and the steps to take.
+type vC04D64Scn struct {
+	Name     string `json:"name"`
+	NegSOA   bool   `json:"neg_soa"`
+	SoaTTL   uint32 `json:"soa_ttl"`
+	SoaMin   uint32 `json:"soa_min"`
+	NegLease int    `json:"neg_lease_s"` // 0: the AAAA answer comes without a lease
+	ATTL     uint32 `json:"a_ttl"`
+	ALease   int    `json:"a_lease_s"`
+	Alias    bool   `json:"alias"`
+	CnameTTL uint32 `json:"cname_ttl"`
+	TLease   int    `json:"target_lease_s"`
+	Steps    []struct {
+		Op    string `json:"op"` // ask | shift | drop-a | drop-aaaa
+		Route int    `json:"route"`
+		Ms    int    `json:"ms"`
+	} `json:"steps"`
 }
 
 func TestVerifC04Dns64(t *testing.T) {
@@ -39,12 +68,26 @@ func TestVerifC04Dns64(t *testing.T) {
 	defer out.f.Close()
 	r := rand.New(rand.NewSource(int64(vC04EnvInt("VERIF_SEED", 1)) + 4044))
 	n := vC04EnvInt("VERIF_N", 400)
-	for emitted := 0; emitted < n; {
-		emitted += vC04Dns64History(out, r, n-emitted)
+	emitted := 0
+	// fixed regression inputs first (the former finding dns64-bare-nodata on every route, ...)
+	if raw, err := os.ReadFile(filepath.Join(os.Getenv("VERIF_CORPUS"), "dns64.jsonl")); err == nil {
+		for _, line := range strings.Split(string(raw), "\n") {
+			if line = strings.TrimSpace(line); line == "" || strings.HasPrefix(line, "#") {
+				continue
+			}
+			scn := new(vC04D64Scn)
+			if err := json.Unmarshal([]byte(line), scn); err != nil {
+				t.Fatalf("corpus dns64.jsonl: %v", err)
+			}
+			emitted += vC04Dns64History(out, r, 1<<20, scn)
+		}
+	}
+	for emitted < n {
+		emitted += vC04Dns64History(out, r, n-emitted, nil)
 	}
 }
 
-func vC04Dns64History(out *vC04Out, r *rand.Rand, budget int) int {
+func vC04Dns64History(out *vC04Out, r *rand.Rand, budget int, scn *vC04D64Scn) int {
 	env := vC04NewEnv(0, 0, 600)
 	defer env.close()
 	k := env.k
@@ -58,78 +101,121 @@ func vC04Dns64History(out *vC04Out, r *rand.Rand, budget int) int {
 	name := "d64.c04.test."
 	target := name
 	ttls := []uint32{1, 4, 7, 30, 60, 300, 601, 3600}
+	lease := func(sc *vC04Script, secs int) {
+		if secs != 0 {
+			sc.hasCut, sc.cut = true, k.now()+int64(time.Duration(secs)*time.Second)
+		}
+	}
+	rndLease := func() int {
+		if r.Intn(3) == 0 {
+			return 3 + r.Intn(100)
+		}
+		return 0
+	}
 	script := func() {
 		// AAAA: NODATA with or without an SOA; A: one or two addresses, possibly behind an alias
+		p := scn
+		if p == nil {
+			p = &vC04D64Scn{NegSOA: r.Intn(4) > 0, SoaTTL: ttls[r.Intn(len(ttls))], SoaMin: ttls[r.Intn(len(ttls))], NegLease: rndLease(),
+				Alias: r.Intn(3) == 0, CnameTTL: ttls[r.Intn(len(ttls))], ATTL: ttls[r.Intn(len(ttls))], ALease: rndLease(), TLease: rndLease()}
+		}
+		naddr := 1
+		if scn == nil {
+			naddr += r.Intn(2)
+		}
 		neg := new(dns.Msg)
 		neg.SetQuestion(name, dns.TypeAAAA)
 		neg.Response = true
-		if r.Intn(4) > 0 {
-			neg.Ns = []dns.RR{vC04SOA("c04.test.", ttls[r.Intn(len(ttls))], ttls[r.Intn(len(ttls))])}
+		if p.NegSOA {
+			neg.Ns = []dns.RR{vC04SOA("c04.test.", p.SoaTTL, p.SoaMin)}
 		}
 		sn := &vC04Script{resp: neg}
-		if r.Intn(3) == 0 {
-			sn.hasCut, sn.cut = true, k.now()+int64(time.Duration(3+r.Intn(100))*time.Second)
-		}
+		lease(sn, p.NegLease)
 		env.stub.script[name+"|AAAA"] = sn
 		a := new(dns.Msg)
 		a.SetQuestion(name, dns.TypeA)
 		a.Response = true
 		target = name
-		if r.Intn(3) == 0 {
+		if p.Alias {
 			target = "t64.c04.test."
-			a.Answer = append(a.Answer, &dns.CNAME{Hdr: dns.RR_Header{Name: name, Rrtype: dns.TypeCNAME, Class: dns.ClassINET, Ttl: ttls[r.Intn(len(ttls))]}, Target: target})
+			a.Answer = append(a.Answer, &dns.CNAME{Hdr: dns.RR_Header{Name: name, Rrtype: dns.TypeCNAME, Class: dns.ClassINET, Ttl: p.CnameTTL}, Target: target})
 			ta := new(dns.Msg)
 			ta.SetQuestion(target, dns.TypeA)
 			ta.Response = true
-			tt := ttls[r.Intn(len(ttls))]
-			for i, c := 0, 1+r.Intn(2); i < c; i++ {
-				ta.Answer = append(ta.Answer, &dns.A{Hdr: dns.RR_Header{Name: target, Rrtype: dns.TypeA, Class: dns.ClassINET, Ttl: tt}, A: []byte{203, 0, 113, byte(1 + i)}})
+			for i := 0; i < naddr; i++ {
+				ta.Answer = append(ta.Answer, &dns.A{Hdr: dns.RR_Header{Name: target, Rrtype: dns.TypeA, Class: dns.ClassINET, Ttl: p.ATTL}, A: []byte{203, 0, 113, byte(1 + i)}})
 			}
-			env.stub.script[target] = &vC04Script{resp: ta}
+			st := &vC04Script{resp: ta}
+			lease(st, p.TLease)
+			env.stub.script[target] = st
 		} else {
-			tt := ttls[r.Intn(len(ttls))]
-			for i, c := 0, 1+r.Intn(2); i < c; i++ {
-				a.Answer = append(a.Answer, &dns.A{Hdr: dns.RR_Header{Name: name, Rrtype: dns.TypeA, Class: dns.ClassINET, Ttl: tt}, A: []byte{203, 0, 113, byte(1 + i)}})
+			for i := 0; i < naddr; i++ {
+				a.Answer = append(a.Answer, &dns.A{Hdr: dns.RR_Header{Name: name, Rrtype: dns.TypeA, Class: dns.ClassINET, Ttl: p.ATTL}, A: []byte{203, 0, 113, byte(1 + i)}})
 			}
 		}
 		sa := &vC04Script{resp: a}
-		if r.Intn(3) == 0 {
-			sa.hasCut, sa.cut = true, k.now()+int64(time.Duration(3+r.Intn(100))*time.Second)
-		}
+		lease(sa, p.ALease)
 		env.stub.script[name] = sa
 	}
 	script()
 	emitted := 0
-	for op, ops := 0, 5+r.Intn(8); op < ops && emitted < budget; op++ {
-		switch x := r.Intn(10); {
-		case x == 0:
-			script()
-			continue
-		case x == 1:
-			// drop one piece so that the pieces get differing ages
-			qt := []uint16{dns.TypeA, dns.TypeAAAA}[r.Intn(2)]
-			env.c.positive.Remove(vC04KeyT(name, qt))
-			continue
-		case x < 5:
-			var ends []int64
-			for _, key := range []uint64{vC04KeyT(name, dns.TypeA), vC04KeyT(name, dns.TypeAAAA), vC04KeyT(target, dns.TypeA)} {
-				if e := env.peek(key); e != nil {
-					end := e.stored.Add(e.ttl)
-					if !e.cutUntil.IsZero() && e.cutUntil.Before(end) {
-						end = e.cutUntil
+	nops := 5 + r.Intn(8)
+	if scn != nil {
+		nops = len(scn.Steps)
+	}
+	for op := 0; op < nops && emitted < budget; op++ {
+		route := r.Intn(3)
+		if scn != nil {
+			st := scn.Steps[op]
+			route = st.Route
+			switch st.Op {
+			case "shift":
+				vC04Shift(env.c, k, time.Duration(st.Ms)*time.Millisecond)
+				continue
+			case "drop-a":
+				env.c.positive.Remove(vC04KeyT(name, dns.TypeA))
+				continue
+			case "drop-aaaa":
+				env.c.positive.Remove(vC04KeyT(name, dns.TypeAAAA))
+				env.c.negative.Remove(vC04KeyT(name, dns.TypeAAAA))
+				continue
+			case "ask":
+			default:
+				panic("corpus dns64.jsonl: unknown op " + st.Op)
+			}
+		} else {
+			x := r.Intn(10)
+			switch {
+			case x == 0:
+				script()
+				continue
+			case x == 1:
+				// drop one piece so that the pieces get differing ages
+				qt := []uint16{dns.TypeA, dns.TypeAAAA}[r.Intn(2)]
+				env.c.positive.Remove(vC04KeyT(name, qt))
+				env.c.negative.Remove(vC04KeyT(name, qt))
+				continue
+			case x < 5:
+				var ends []int64
+				for _, key := range []uint64{vC04KeyT(name, dns.TypeA), vC04KeyT(name, dns.TypeAAAA), vC04KeyT(target, dns.TypeA)} {
+					if e := env.peek(key); e != nil {
+						end := e.stored.Add(e.ttl)
+						if !e.cutUntil.IsZero() && e.cutUntil.Before(end) {
+							end = e.cutUntil
+						}
+						ends = append(ends, k.virt(end))
 					}
-					ends = append(ends, k.virt(end))
 				}
+				now := k.now()
+				tgt := now + int64(time.Duration(r.Intn(4000))*time.Millisecond)
+				if len(ends) > 0 && r.Intn(3) > 0 {
+					tgt = ends[r.Intn(len(ends))] + []int64{-2600, -1400, -300, 300}[r.Intn(4)]*int64(time.Millisecond)
+				}
+				if tgt > now {
+					vC04Shift(env.c, k, time.Duration(tgt-now))
+				}
+				continue
 			}
-			now := k.now()
-			tgt := now + int64(time.Duration(r.Intn(4000))*time.Millisecond)
-			if len(ends) > 0 && r.Intn(3) > 0 {
-				tgt = ends[r.Intn(len(ends))] + []int64{-2600, -1400, -300, 300}[r.Intn(4)]*int64(time.Millisecond)
-			}
-			if tgt > now {
-				vC04Shift(env.c, k, time.Duration(tgt-now))
-			}
-			continue
 		}
 		// snapshot the pieces, ask for AAAA through dns64 -> cache -> downstream
 		preNeg := env.peek(vC04KeyT(name, dns.TypeAAAA))
@@ -139,14 +225,45 @@ func vC04Dns64History(out *vC04Out, r *rand.Rand, budget int) int {
 		req.SetQuestion(name, dns.TypeAAAA)
 		req.RecursionDesired = true
 		writer := mock.NewWriter("udp", "198.51.100.77:40000")
-		ch := middleware.NewChain([]middleware.Handler{d, env.c, env.stub})
-		ch.Reset(writer, req)
 		env.stub.calls = nil
-		// the server's request context exposes the chain's ResponseMeta; the cache folds its hits into it
-		ctx := middleware.WithResponseMeta(context.Background(), new(middleware.ResponseMeta))
+		// routes: 0 message-born under a server-style context that already carries a meta,
+		// 1 message-born under a bare context (the chain establishes its own meta),
+		// 2 wire-born below edns (dns64 materialises; everything below runs on the detached context)
+		var ch *middleware.Chain
+		ctx := context.Background()
+		meta := new(middleware.ResponseMeta)
+		switch route {
+		case 0:
+			ch = middleware.NewChain([]middleware.Handler{d, env.c, env.stub})
+			ch.Reset(writer, req)
+			ctx = middleware.WithResponseMeta(ctx, meta)
+		case 1:
+			ch = middleware.NewChain([]middleware.Handler{d, env.c, env.stub})
+			ch.Reset(writer, req)
+			meta = &ch.Meta
+		default:
+			req.SetEdns0(1232, false)
+			raw, err := req.Pack()
+			if err != nil {
+				panic(err)
+			}
+			wreq := new(middleware.Request)
+			if !wreq.ParseWire(raw, time.Now(), nil) {
+				panic("wire request refused")
+			}
+			ch = middleware.NewChain([]middleware.Handler{env.e, d, env.c, env.stub})
+			ch.ResetWire(writer, wreq)
+			ch.AllowDirectPack()
+			meta = nil // the detached context carries a copy the driver cannot reach
+		}
 		t0 := k.now()
 		ch.Next(ctx)
 		t1 := k.now()
+		bobs := "None"
+		if meta != nil {
+			cut, _ := meta.Cut()
+			bobs = "(Some " + vC04OZ(!cut.IsZero(), k.virt(cut)) + ")"
+		}
 		if !writer.Written() {
 			continue
 		}
@@ -166,10 +283,6 @@ func vC04Dns64History(out *vC04Out, r *rand.Rand, budget int) int {
 				amb = true
 			}
 		}
-		if amb {
-			out.emit(map[string]any{"inconclusive": true})
-			continue
-		}
 		var obs []string
 		for _, rr := range resp.Answer {
 			if rr.Header().Rrtype == dns.TypeAAAA {
@@ -180,16 +293,21 @@ func vC04Dns64History(out *vC04Out, r *rand.Rand, budget int) int {
 			continue // nothing synthesised (no address): not a composition
 		}
 		// which piece supplied what: a name that went downstream is fresh, otherwise the snapshot entry
-		negScript := env.stub.script[name+"|AAAA"].resp
+		negSc := env.stub.script[name+"|AAAA"]
+		negScript := negSc.resp
 		hasSOA, minimum := false, uint32(0)
 		var negPiece string
+		var leases []int64 // deadlines folded by fresh downstream answers
 		if stubbed[name+"|AAAA"] || !live(preNeg) {
 			if len(negScript.Ns) > 0 {
 				soa := negScript.Ns[0].(*dns.SOA)
 				hasSOA, minimum = true, soa.Minttl
-				negPiece = vC04PieceCoq(k, nil, soa.Hdr.Ttl)
+				negPiece = vC04PieceCoq(k, nil, soa.Hdr.Ttl, negSc)
 			} else {
-				negPiece = "(PFresh 600)" // no SOA downstream: RFC 6147 ceiling
+				negPiece = vC04PieceCoq(k, nil, 600, negSc) // no SOA downstream: RFC 6147 ceiling
+			}
+			if negSc.hasCut {
+				leases = append(leases, negSc.cut)
 			}
 		} else {
 			m := preNeg.storedMsg()
@@ -197,11 +315,11 @@ func vC04Dns64History(out *vC04Out, r *rand.Rand, budget int) int {
 				soa := m.Ns[0].(*dns.SOA)
 				hasSOA, minimum = true, soa.Minttl
 			}
-			negPiece = vC04PieceCoq(k, preNeg, 0)
+			negPiece = vC04PieceCoq(k, preNeg, 0, nil)
 		}
 		// the address records come from the answer of the name that owns the synthesised
 		// records (the end of the alias chain as it was actually followed)
-		var addrs []string
+		var addrs, via []string
 		termName, termPre := name, preA
 		for _, rr := range resp.Answer {
 			if rr.Header().Rrtype == dns.TypeAAAA {
@@ -210,20 +328,58 @@ func vC04Dns64History(out *vC04Out, r *rand.Rand, budget int) int {
 		}
 		if termName != name {
 			termPre = preT
+			// the alias answer at the queried name is a consulted piece of its own
+			if stubbed[name] || !live(preA) {
+				sc := env.stub.script[name]
+				cttl := uint32(0)
+				for _, rr := range sc.resp.Answer {
+					if c, ok := rr.(*dns.CNAME); ok {
+						cttl = c.Hdr.Ttl
+					}
+				}
+				via = append(via, vC04PieceCoq(k, nil, cttl, sc))
+				if sc.hasCut {
+					leases = append(leases, sc.cut)
+				}
+			} else {
+				via = append(via, vC04PieceCoq(k, preA, 0, nil))
+			}
 		}
 		if stubbed[termName] || !live(termPre) {
-			for _, rr := range env.stub.script[termName].resp.Answer {
+			sc := env.stub.script[termName]
+			for _, rr := range sc.resp.Answer {
 				if a, ok := rr.(*dns.A); ok {
-					addrs = append(addrs, vC04PieceCoq(k, nil, a.Hdr.Ttl))
+					addrs = append(addrs, vC04PieceCoq(k, nil, a.Hdr.Ttl, sc))
 				}
+			}
+			if sc.hasCut {
+				leases = append(leases, sc.cut)
 			}
 		} else {
 			for _, rr := range termPre.storedMsg().Answer {
 				if _, ok := rr.(*dns.A); ok {
-					addrs = append(addrs, vC04PieceCoq(k, termPre, 0))
+					addrs = append(addrs, vC04PieceCoq(k, termPre, 0, nil))
 				}
 			}
 		}
+		// a lease whose whole seconds left differ between the two readings of the bracket
+		// cannot be attributed to one clock reading
+		secsLeft := func(deadline, now int64) int64 {
+			if deadline <= now {
+				return 0
+			}
+			return (deadline - now) / int64(time.Second)
+		}
+		for _, l := range leases {
+			if secsLeft(l, t0) != secsLeft(l, t1) {
+				amb = true
+			}
+		}
+		if amb {
+			out.emit(map[string]any{"inconclusive": true})
+			continue
+		}
+		// Go-side oracle (the statement): no synthesised record outlives a cached piece it was composed from
 		fail := ""
 		for _, e := range []*CacheEntry{preNeg, termPre} {
 			if e == nil || !live(e) {
@@ -239,7 +395,10 @@ func vC04Dns64History(out *vC04Out, r *rand.Rand, budget int) int {
 				}
 			}
 		}
-		kk := "dns64"
+		kk := fmt.Sprintf("dns64-route%d", route)
+		if scn != nil {
+			kk = "corpus-" + kk
+		}
 		if !stubbed[name+"|AAAA"] {
 			kk += "-negcached"
 		}
@@ -249,16 +408,19 @@ func vC04Dns64History(out *vC04Out, r *rand.Rand, budget int) int {
 		if termName != name {
 			kk += "-alias"
 		}
-		fkey := ""
+		if len(leases) > 0 {
+			kk += "-lease"
+		}
 		if !hasSOA && !stubbed[name+"|AAAA"] && live(preNeg) {
-			// KNOWN finding class: the AAAA NODATA piece is a cached answer without an SOA
-			// (held for the 5 s floor); nothing in it carries its remaining lifetime to dns64
-			fkey = "dns64-bare-nodata"
+			// the class of the former finding dns64-bare-nodata (repaired by af44539): the AAAA
+			// NODATA piece is a cached answer without an SOA, held for the 5 s floor; only the
+			// request tree's bound carries its remaining lifetime to dns64. Judged strictly.
 			kk += "-baresoa"
 		}
-		out.emit(map[string]any{"k": kk, "nontrivial": true, "go_fail": fail, "fkey": fkey,
-			"coq": fmt.Sprintf("CDns64 %v %s %d [%s] %s %s [%s]%%Z", hasSOA, negPiece, minimum, strings.Join(addrs, "; "), vC04Z(t0), vC04Z(t1), strings.Join(obs, "; ")),
-			"desc": map[string]any{"reply": resp.String(), "went_downstream": env.stub.calls}})
+		out.emit(map[string]any{"k": kk, "nontrivial": true, "go_fail": fail,
+			"coq": fmt.Sprintf("CDns64 %v %s %d [%s] [%s] %s %s %s [%s]%%Z", hasSOA, negPiece, minimum,
+				strings.Join(addrs, "; "), strings.Join(via, "; "), vC04Z(t0), vC04Z(t1), bobs, strings.Join(obs, "; ")),
+			"desc": map[string]any{"route": route, "reply": resp.String(), "went_downstream": env.stub.calls}})
 		emitted++
 	}
 	if emitted == 0 {
